@@ -57,6 +57,9 @@ pub fn run_case(c: &J) -> J {
   let names: Vec<String> = (1..=args.len()).map(|i| format!("a{}", i)).collect();
   let pos_text = format!("{}({})", f, names.join(", "));
   let mut rec = json!({"fn": f, "args": enc_args, "pos": eval(&scope, &pos_text), "text": pos_text});
+  if c.get("re").is_some() {
+    rec["re"] = c["re"].clone();
+  }
   let pn = param_names(f);
   // the named form exists when every argument has a parameter name (varargs forms have none)
   let single_list_form = ["min", "max", "sum", "mean", "median", "mode", "stddev", "all", "append", "concatenate", "union"].contains(&f) && (args.len() != pn.len() || (pn == ["list"] && args[0]["k"] != "list"));
@@ -103,7 +106,11 @@ pub fn check(mut ctx: Ctx, replay: Option<J>) -> ! {
     let r = &recs[*i];
     let args: Vec<String> = r["args"].as_array().unwrap().iter().map(|a| dec_value(a).to_string()).collect();
     let form = if why.contains("named") { "named" } else { "positional" };
-    let sig = format!("{}:{}:arity{}", r["fn"].as_str().unwrap_or(""), form, args.len());
+    let sig = if why.starts_with("replace: the result lost") {
+      "replace:result-trimmed".to_string()
+    } else {
+      format!("{}:{}:arity{}", r["fn"].as_str().unwrap_or(""), form, args.len())
+    };
     ctx.reject(&[sig], json!({"case": {"fn": r["fn"], "args": r["args"]}, "record": r}), &format!("{} : {}({}) -> {} / named {}", why, r["fn"].as_str().unwrap_or(""), args.join(", "), dec_value(&r["pos"]), r.get("named").map(|n| dec_value(n).to_string()).unwrap_or_default()));
   }
   let n = recs.len() as u64;
